@@ -90,7 +90,7 @@ func c18Template(r *R) string {
 	n := r.Range(2, 7)
 	dump := func(e string) string { return "\x01{{ " + e + "|json_encode }}\x02" }
 	for i := 0; i < n; i++ {
-		switch r.N(19) {
+		switch r.N(20) {
 		case 0, 1:
 			l, f := listAndFilter(r)
 			sb.WriteString("{{ " + l + "|" + f + "|json_encode }};")
@@ -145,6 +145,11 @@ func c18Template(r *R) string {
 			// unreachable), nil pointer field, nil map, nil slice - reading through them must not fill them in
 			h := pick(r, []string{"hold", "hold", "hold2", "(holders|first)", "(holders|last)"})
 			sb.WriteString("{{ " + h + "." + pick(r, []string{"ID", "Slug", "Title", "Opt.Name", "Opt", "Notes.k", "Notes|default({})|keys|length", "Refs|default([])|length", "Refs|first", "BaseRec.ID", "BaseRec"}) + "|default('-') }}{% for h in holders %}{{ h." + pick(r, []string{"ID", "Slug", "Title", "Opt.Age", "Notes.x"}) + " }}{% endfor %}{{ " + h + ".ID is defined ? 'd' : 'u' }};")
+		case 18:
+			// assignment targets that spell a path into the caller's data (this engine binds a variable of that
+			// literal name; whatever it does, the caller's nested maps are not its to write)
+			tgt := pick(r, []string{"m1.inner.a", "m1.inner.zz", "gm.inner.b", "p1.Meta.z", "pp.Meta.y", "cfg.list.x", "m1.k1", "hold2.Notes.k", "gcfg.mode.x"})
+			sb.WriteString("{% set " + tgt + " = " + pick(r, []string{"'w'", "[1]", "n1"}) + " %}{{ m1.inner|json_encode }}{{ " + tgt + "|default('-') }};")
 		default:
 			sb.WriteString("{% do " + "n1 + 1 %}{{ pp.Inner.Name }}{{ pp.Greeting }}{{ l2|first|json_encode }};")
 		}
@@ -177,7 +182,7 @@ func (propC18) Gen(seed uint64, ex map[string]bool) interface{} {
 	)
 	for k := range ctx.M {
 		if ctx.M[k].K == "m1" {
-			ctx.M[k].V.M = append(ctx.M[k].V.M, KV{"list", &Val{T: "list", L: []*Val{s("z"), s("y"), s("x")}}}, KV{"inner", &Val{T: "map", M: []KV{{"b", i(2)}, {"a", i(1)}}}})
+			ctx.M[k].V.M = append(ctx.M[k].V.M, KV{"blob", &Val{T: "bytes", S: "b\x00lob"}}, KV{"list", &Val{T: "list", L: []*Val{s("z"), s("y"), s("x")}}}, KV{"inner", &Val{T: "map", M: []KV{{"b", i(2)}, {"a", i(1)}}}})
 		}
 	}
 	sc.Ctx = ctx
